@@ -45,6 +45,9 @@ def shards(tier):
     for nx in range(1, ncx + 1):
         for ny in range(1, ncx + 1):
             out.append(('cross', 'ZC5', nx, ny))
+    for nx in range(1, ncx + 1):
+        for ny in range(1, ncx + 1):
+            out.append(('mixed', nx, ny))
     out.append(('cross', 'ZI1', 2, 3))
     out.append(('cross', 'ZI1', 3, 2))
     for name, nmax in (('ZR1', 5 if q else 7), ('ZI1', 4 if q else 5), ('ZC5', 3 if q else 5), ('DYN', 3 if q else 5)):
@@ -74,6 +77,20 @@ def run_shard(desc, R, tier):
                 for ml in list(range(N)) + [None]:
                     for norm in NORMS:
                         eval_point({'kind': 'cross', 'x': x, 'y': y, 'maxlags': ml, 'norm': norm}, R)
+    elif kind == 'mixed':
+        # real x with complex y and complex x with real y (mixed-type cross-correlation)
+        _, nx, ny = desc
+        N = max(nx, ny)
+        for sx in itertools.product(A.ZR(1), repeat=nx):
+            for sy in itertools.product(A.ZC5, repeat=ny):
+                x, y = np.array(sx, dtype=float), np.array(sy, dtype=complex)
+                for ml in list(range(N)) + [None]:
+                    for norm in NORMS:
+                        eval_point({'kind': 'cross', 'x': x, 'y': y, 'maxlags': ml, 'norm': norm}, R)
+                        eval_point({'kind': 'cross', 'x': y, 'y': x, 'maxlags': ml, 'norm': norm}, R)
+                        if nx == ny:
+                            eval_point({'kind': 'xcorr', 'x': x, 'y': y, 'maxlags': ml, 'norm': norm, 'aslist': False}, R)
+                            eval_point({'kind': 'xcorr', 'x': y, 'y': x, 'maxlags': ml, 'norm': norm, 'aslist': False}, R)
     elif kind == 'auto':
         _, name, n = desc
         alpha, dt = _alpha(name)
@@ -133,8 +150,11 @@ def _prom(a):
 
 
 def _dt(*arrs):
-    if any(np.iscomplexobj(a) for a in arrs if a is not None):
+    if any(np.iscomplexobj(a) for a in arrs if a is not None) and all(np.iscomplexobj(a) for a in arrs if a is not None):
         return 'complex'
+    kinds = set('c' if np.iscomplexobj(a) else 'r' for a in arrs if a is not None)
+    if len(kinds) == 2:
+        return 'mixed'
     if all(np.asarray(a).dtype.kind in 'iu' for a in arrs if a is not None):
         return 'int' if all(np.asarray(a).dtype.itemsize >= 8 for a in arrs if a is not None) else 'narrow-int'
     return 'real'
